@@ -95,6 +95,10 @@ var c10Tmpls = []c10Tmpl{
 	{".a, length", "map", "many", false, "union"},
 	{"length, keys", "map", "many", false, "union"},
 	{"., .", "any", "many", false, "union"},
+	{"(., .a) | . == 1", "map", "many", false, "union-root-first"},
+	{"[(., .a)] | length", "map", "1", false, "union-root-first"},
+	{"(., .b) as $x | $x | kind", "map", "many", true, "union-root-first"},
+	{"{\"k\": (., .a) | kind}", "map", "many", false, "union-root-first"},
 	{".a == .b", "map", "1", false, "equals"},
 	{". == 1", "any", "1", false, "equals"},
 	{"to_json", "any", "1", false, "encode"},
